@@ -96,4 +96,36 @@ theorem Chain.sum {α σ : Type} {R : α → σ → σ → Prop} {m : σ → Nat
     refine ⟨i2, ?_⟩
     simp [List.map_cons, List.sum_cons]; omega
 
+/-- a total check-only loop: it ends without early exit exactly when every element is `good` -/
+theorem forRangeFrom_none_iff {α σ ρ : Type} {f : Int → α → σ → Except String (Option ρ × σ)} {good : α → Prop}
+    (hf : ∀ i x st, ∃ r st', f i x st = .ok (r, st') ∧ (r = none ↔ good x)) :
+    ∀ (xs : List α) (k : Int) (st : σ), ∃ r st', Go.forRangeFrom f xs k st = .ok (r, st') ∧ (r = none ↔ ∀ x ∈ xs, good x) := by
+  intro xs
+  induction xs with
+  | nil => intro k st; exact ⟨none, st, by simp [Go.forRangeFrom], by simp⟩
+  | cons x xs ih =>
+    intro k st
+    obtain ⟨r, st1, e, g⟩ := hf k x st
+    unfold Go.forRangeFrom
+    rw [e]
+    cases r with
+    | some v =>
+      refine ⟨some v, st1, rfl, ?_⟩
+      constructor
+      · intro h; cases h
+      · intro h
+        have := g.mpr (h x List.mem_cons_self)
+        cases this
+    | none =>
+      obtain ⟨r2, st2, e2, g2⟩ := ih (k + 1) st1
+      refine ⟨r2, st2, e2, ?_⟩
+      rw [g2]
+      constructor
+      · intro h y hy
+        cases hy with
+        | head => exact g.mp rfl
+        | tail _ hm => exact h y hm
+      · intro h y hy
+        exact h y (List.mem_cons_of_mem _ hy)
+
 end GoLoops
